@@ -323,3 +323,315 @@ def translate():
 
 if __name__ == "__main__":
     print(translate()[0])
+
+
+# =====================================================================================================================
+# Part 2 — the emission paths as decision trees (lean/Ipv8/C06/IR.lean):  TunnelExitSocket.sendto / datagram_received /
+# tunnel_data, TunnelCommunity.exit_data and the dispatch tail of TunnelCommunity.on_data  ->  GenPaths.lean
+#
+# Recognition is by the canonical text (ast.unparse) of small expressions after substituting local aliases
+# (`exit_socket = self.exit_sockets[circuit_id]`, `destination = payload.dest_address`, …), so renamed locals, extracted
+# aliases, reordered conjuncts, `not`/`!=`/`else` re-arrangements and re-ordered independent tests translate to an
+# equivalent tree or to a different tree that still passes the safety check proved sound in Lemmas.lean.
+# =====================================================================================================================
+COMM = "ipv8/messaging/anonymization/community.py"
+NULL_TXT = "('0.0.0.0', 0)"
+
+
+class _Subst(ast.NodeTransformer):
+    def __init__(self, aliases):
+        self.aliases = aliases
+
+    def visit_Name(self, node):
+        if isinstance(node.ctx, ast.Load) and node.id in self.aliases:
+            return ast.parse(self.aliases[node.id], mode="eval").body
+        return node
+
+
+class PathFn:
+    """translate one method body into a Prog tree: ('done',) | ('act', name, k) | ('ite', atom, t, e)"""
+
+    def __init__(self, file, name, atoms, acts, skip_calls=(), aliasable=(), opaque_if=None):
+        self.file, self.name = file, name
+        self.atoms = atoms            # canonical text -> Cond constructor
+        self.acts = acts              # canonical text -> Act constructor
+        self.skip_calls = skip_calls  # canonical text prefixes of statements that are dropped
+        self.aliasable = aliasable    # predicates on canonical text: `x = <text>` becomes an alias
+        self.aliases = {}
+        self.callbacks = {}           # local function name -> validated as "re-enters self.sendto"
+        self.tasks = set()            # local names bound to ensure_future(self.resolve(destination))
+        self.transport_names = set()  # local names bound to the family-selected transport
+        self.opaque_if = opaque_if    # (atom, act): an `if <atom>:` whose body is replaced by one hand-modelled action
+        self.facts = {}
+
+    def err(self, node, msg):
+        raise TranslatorError(f"{self.file}:{getattr(node, 'lineno', '?')}: {self.name}: {msg}")
+
+    def canon(self, node) -> str:
+        import copy
+        n = _Subst(self.aliases).visit(copy.deepcopy(node))
+        return ast.unparse(ast.fix_missing_locations(n))
+
+    # ---- conditions -> nested ite --------------------------------------------------------------------------
+    def cond(self, n):
+        if isinstance(n, ast.UnaryOp) and isinstance(n.op, ast.Not):
+            return ("not", self.cond(n.operand))
+        if isinstance(n, ast.BoolOp):
+            txts = sorted(self.canon(v) for v in n.values)
+            key = (" and " if isinstance(n.op, ast.And) else " or ").join(txts)
+            if key in self.atoms:                      # a conjunction recognised as a whole, in any order
+                return ("atom", self.atoms[key])
+            return ("and" if isinstance(n.op, ast.And) else "or", [self.cond(v) for v in n.values])
+        if isinstance(n, ast.Name) and n.id in self.transport_names:
+            return ("atom", "hasTransport")
+        txt = self.canon(n)
+        if txt in self.atoms:
+            return ("atom", self.atoms[txt])
+        if isinstance(n, ast.Compare) and len(n.ops) == 1:
+            l, r = self.canon(n.left), self.canon(n.comparators[0])
+            op = n.ops[0]
+            if isinstance(op, (ast.Eq, ast.NotEq)):
+                for a, b in ((l, r), (r, l)):
+                    key = f"{a} == {b}"
+                    if key in self.atoms:
+                        c = ("atom", self.atoms[key])
+                        return ("not", c) if isinstance(op, ast.NotEq) else c
+            if isinstance(op, (ast.In, ast.NotIn)):
+                key = f"{l} in {r}"
+                if key in self.atoms:
+                    c = ("atom", self.atoms[key])
+                    return ("not", c) if isinstance(op, ast.NotIn) else c
+            if isinstance(op, (ast.Is, ast.IsNot)) and r == "None" and l in self.atoms:
+                c = ("atom", self.atoms[l])            # `x is not None` for an atom that is an object-or-None
+                return c if isinstance(op, ast.IsNot) else ("not", c)
+        self.err(n, f"condition `{txt}` outside the subset")
+
+    def ite(self, c, t, e):
+        k = c[0]
+        if k == "atom":
+            return ("ite", c[1], t, e)
+        if k == "not":
+            return self.ite(c[1], e, t)
+        if k == "and":
+            out = t
+            for sub in reversed(c[1]):
+                out = self.ite(sub, out, e)
+            return out
+        out = e
+        for sub in reversed(c[1]):
+            out = self.ite(sub, t, out)
+        return out
+
+    # ---- statements ----------------------------------------------------------------------------------------
+    def only_logging(self, stmts) -> bool:
+        for s in stmts:
+            if isinstance(s, ast.Pass):
+                continue
+            if isinstance(s, ast.Expr) and isinstance(s.value, ast.Call) and ast.unparse(s.value.func).startswith("self.logger."):
+                continue
+            return False
+        return True
+
+    def check_on_address(self, f: ast.FunctionDef):
+        """`def on_address(future)`: result fetched in a try whose handlers log and return; then self.sendto(data, <result>)"""
+        body = [s for s in f.body if not (isinstance(s, ast.Expr) and isinstance(s.value, ast.Constant))]
+        res = None
+        ok = len(body) == 2 and isinstance(body[0], ast.Try) and not body[0].orelse and not body[0].finalbody
+        if ok:
+            tb = body[0].body
+            ok = len(tb) == 1 and isinstance(tb[0], ast.Assign) and isinstance(tb[0].targets[0], ast.Name) \
+                and ast.unparse(tb[0].value) == f"{f.args.args[0].arg}.result()"
+            if ok:
+                res = tb[0].targets[0].id
+            for h in body[0].handlers:
+                ok = ok and len(h.body) >= 1 and isinstance(h.body[-1], ast.Return) and h.body[-1].value is None \
+                    and self.only_logging(h.body[:-1])
+        ok = ok and isinstance(body[1], ast.Expr) and self.canon(body[1].value) == f"self.sendto(data, {res})"
+        if not ok:
+            self.err(f, f"resolution callback `{f.name}` does not have the shape `try: ip = future.result() except …: log; return` "
+                        "followed by `self.sendto(data, ip)` (the resolved packet must re-enter sendto)")
+        self.callbacks[f.name] = True
+
+    def block(self, stmts, cont):
+        if not stmts:
+            return cont()
+        s, rest = stmts[0], stmts[1:]
+        nxt = lambda: self.block(rest, cont)  # noqa: E731
+        if isinstance(s, ast.Expr) and isinstance(s.value, ast.Constant) and isinstance(s.value.value, str):
+            return nxt()
+        if isinstance(s, ast.Pass):
+            return nxt()
+        if isinstance(s, ast.Return):
+            if s.value is not None and ast.unparse(s.value) != "None":
+                self.err(s, "return with a value")
+            return ("done",)
+        if isinstance(s, ast.AugAssign) and ast.unparse(s.target) in ("self.bytes_up", "self.bytes_down"):
+            return nxt()
+        if isinstance(s, ast.FunctionDef):
+            self.check_on_address(s)
+            return nxt()
+        if isinstance(s, ast.If):
+            c = self.cond(s.test)
+            if self.opaque_if and c == ("atom", self.opaque_if[0]):
+                for n in ast.walk(ast.Module(body=s.body, type_ignores=[])):
+                    if isinstance(n, ast.Attribute) and n.attr in ("exit_data", "exit_sockets", "sendto", "enable"):
+                        self.err(n, "the own-circuit branch touches the exit path")
+                t = ("act", self.opaque_if[1], ("done",))
+            else:
+                t = self.block(s.body, nxt)
+            e = self.block(s.orelse, nxt) if s.orelse else nxt()
+            return self.ite(c, t, e)
+        if isinstance(s, ast.Try):
+            if s.orelse or s.finalbody or not all(self.only_logging(h.body) for h in s.handlers):
+                self.err(s, "try statement whose handlers do more than log")
+            return self.block(s.body, nxt)
+        if isinstance(s, ast.Assign) and len(s.targets) == 1:
+            tgt, txt = s.targets[0], self.canon(s.value)
+            if isinstance(tgt, ast.Name):
+                if txt == "self.transport_ipv6 if isinstance(destination, UDPv6Address) else self.transport_ipv4":
+                    self.transport_names.add(tgt.id)
+                    return nxt()
+                if txt == "ensure_future(self.resolve(destination))":
+                    self.tasks.add(tgt.id)
+                    return nxt()
+                if any(p(txt) for p in self.aliasable):
+                    self.aliases[tgt.id] = txt
+                    self.facts.setdefault("aliases", {})[tgt.id] = txt
+                    return nxt()
+            if isinstance(tgt, ast.Tuple) and txt in self.skip_calls:
+                self.facts["decoded"] = [ast.unparse(e) for e in tgt.elts]
+                for e in tgt.elts:
+                    if isinstance(e, ast.Name) and e.id != "_":
+                        self.aliases.pop(e.id, None)
+                return nxt()
+            self.err(s, f"assignment `{ast.unparse(s)}` outside the subset")
+        if isinstance(s, ast.Expr) and isinstance(s.value, ast.Call):
+            call = s.value
+            ftxt = ast.unparse(call.func)
+            if ftxt.startswith("self.logger.") or ftxt in ("self.beat_heart", "circuit.beat_heart"):
+                return nxt()
+            # transport.sendto(data, destination)
+            if isinstance(call.func, ast.Attribute) and call.func.attr == "sendto" and isinstance(call.func.value, ast.Name) \
+                    and call.func.value.id in self.transport_names and not call.keywords \
+                    and [self.canon(a) for a in call.args] == ["data", "destination"]:
+                return ("act", "transportSend", nxt())
+            # self.register_anonymous_task(…, task, …).add_done_callback(on_address)
+            if isinstance(call.func, ast.Attribute) and call.func.attr == "add_done_callback" and len(call.args) == 1 \
+                    and isinstance(call.args[0], ast.Name) and call.args[0].id in self.callbacks \
+                    and isinstance(call.func.value, ast.Call) \
+                    and ast.unparse(call.func.value.func) == "self.register_anonymous_task":
+                inner = call.func.value
+                args = list(inner.args) + [k.value for k in inner.keywords]
+                if any((isinstance(a, ast.Name) and a.id in self.tasks)
+                       or self.canon(a) == "ensure_future(self.resolve(destination))" for a in args):
+                    return ("act", "startResolve", nxt())
+            txt = self.canon(call)
+            if txt in self.acts:
+                return ("act", self.acts[txt], nxt())
+            self.err(s, f"call `{txt}` outside the subset")
+        self.err(s, f"statement {type(s).__name__} outside the subset")
+
+
+def _method(cls, name, params, file):
+    fs = [f for f in cls.body if isinstance(f, ast.FunctionDef) and f.name == name]
+    if len(fs) != 1 or [a.arg for a in fs[0].args.args] != params or fs[0].args.kwonlyargs or fs[0].args.vararg:
+        raise TranslatorError(f"{file}: method {cls.name}.{name}({', '.join(params)}) not found")
+    return fs[0]
+
+
+def lean_prog(t, ind=1) -> str:
+    pad = "  " * ind
+    if t[0] == "done":
+        return pad + ".done"
+    if t[0] == "act":
+        return f"{pad}(.act .{t[1]}\n{lean_prog(t[2], ind + 1)})"
+    return f"{pad}(.ite .{t[1]}\n{lean_prog(t[2], ind + 1)}\n{lean_prog(t[3], ind + 1)})"
+
+
+def translate_paths():
+    es_src = (REPO / SRC).read_text()
+    cm_src = (REPO / COMM).read_text()
+    sock = find_class(ast.parse(es_src), "TunnelExitSocket")
+    comm = None
+    for s in ast.parse(cm_src).body:
+        if isinstance(s, ast.ClassDef) and s.name == "TunnelCommunity":
+            comm = s
+    if comm is None:
+        raise TranslatorError(f"{COMM}: class TunnelCommunity not found")
+    meta, progs, srcs = {}, [], []
+
+    # --- TunnelExitSocket.sendto(self, data, destination)
+    f = _method(sock, "sendto", ["self", "data", "destination"], SRC)
+    p = PathFn(SRC, "sendto",
+               atoms={"self.is_allowed(data)": "allowed", "isinstance(destination, DomainAddress)": "isDomain",
+                      f"destination == {NULL_TXT}": "destIsNull",
+                      "self.transport_ipv6 if isinstance(destination, UDPv6Address) else self.transport_ipv4": "hasTransport"},
+               acts={"self.queue.append((data, destination))": "queueAppend"})
+    progs.append(("sendto_prog", f"exit_socket.py l.{f.lineno}: TunnelExitSocket.sendto", p.block(f.body, lambda: ("done",))))
+    srcs.append(f)
+    # --- the flush loop of enable(): while self.queue: self.sendto(*self.queue.popleft())
+    en = _method(sock, "enable", ["self"], SRC)
+    loops = [n for n in ast.walk(en) if isinstance(n, ast.While)]
+    if len(loops) != 1 or ast.unparse(loops[0].test) != "self.queue" or loops[0].orelse or len(loops[0].body) != 1 \
+            or ast.unparse(loops[0].body[0]) != "self.sendto(*self.queue.popleft())":
+        raise TranslatorError(f"{SRC}:{en.lineno}: enable(): the queue is not flushed by `while self.queue: self.sendto(*self.queue.popleft())` "
+                              "(queued packets must re-enter sendto)")
+    meta["flush"] = "via sendto"
+    srcs.append(en)
+    # --- TunnelExitSocket.datagram_received(self, data, source) and tunnel_data
+    f = _method(sock, "datagram_received", ["self", "data", "source"], SRC)
+    p = PathFn(SRC, "datagram_received", atoms={"self.is_allowed(data)": "allowed"},
+               acts={"self.tunnel_data(source, data)": "tunnelData"})
+    progs.append(("datagram_received_prog", f"exit_socket.py l.{f.lineno}: TunnelExitSocket.datagram_received",
+                  p.block(f.body, lambda: ("done",))))
+    srcs.append(f)
+    td = _method(sock, "tunnel_data", ["self", "source", "data"], SRC)
+    body = [s for s in td.body if not (isinstance(s, ast.Expr) and (isinstance(s.value, ast.Constant) or
+                                                                    ast.unparse(s.value).startswith("self.logger.")))]
+    want = f"self.overlay.send_data(self.hop.address, self.circuit_id, {NULL_TXT}, source, data)"
+    if len(body) != 1 or not isinstance(body[0], ast.Expr) or ast.unparse(body[0].value) != want:
+        raise TranslatorError(f"{SRC}:{td.lineno}: tunnel_data is not `{want}`")
+    srcs.append(td)
+    # --- TunnelCommunity.exit_data(self, circuit_id, sock_addr, destination, data)
+    f = _method(comm, "exit_data", ["self", "circuit_id", "sock_addr", "destination", "data"], COMM)
+    ES = "self.exit_sockets[circuit_id]"
+    p = PathFn(COMM, "exit_data",
+               atoms={"circuit_id in self.exit_sockets": "knownCircuit", f"{ES}.enabled": "sockEnabled",
+                      f"sock_addr[0] == {ES}.hop.address[0]": "srcIpIsHopIp", f"destination == {NULL_TXT}": "destIsNull"},
+               acts={f"{ES}.enable()": "enable", f"{ES}.sendto(data, destination)": "sendto"},
+               aliasable=[lambda t: t == ES, lambda t: t == f"{ES}.hop", lambda t: t == f"{ES}.hop.address",
+                          lambda t: t in ("sock_addr[0]", f"{ES}.hop.address[0]")])
+    progs.append(("exit_data_prog", f"community.py l.{f.lineno}: TunnelCommunity.exit_data", p.block(f.body, lambda: ("done",))))
+    meta["exit_data_aliases"] = p.facts.get("aliases", {})
+    srcs_c = [f]
+    # --- TunnelCommunity.on_data(self, sock_addr, data, _)
+    f = _method(comm, "on_data", ["self", "sock_addr", "data", "_"], COMM)
+    CIRC = "self.circuits.get(payload.circuit_id, None)"
+    unpack = "self.serializer.unpack_serializable(DataPayload, data, offset=23)"
+    own = " and ".join(sorted([CIRC, "payload.org_address", f"sock_addr == {CIRC}.hop.address"]))
+    p = PathFn(COMM, "on_data",
+               atoms={own: "ownCircuit", f"payload.dest_address == {NULL_TXT}": "destIsNull"},
+               acts={"self.exit_data(payload.circuit_id, sock_addr, payload.dest_address, payload.data)": "exitData"},
+               skip_calls=(unpack,),
+               aliasable=[lambda t: t in ("payload.circuit_id", "payload.dest_address", "payload.org_address", "payload.data"),
+                          lambda t: t in (CIRC, "self.circuits.get(payload.circuit_id)")],
+               opaque_if=("ownCircuit", "localDeliver"))
+    # `.get(x)` and `.get(x, None)` are the same lookup
+    orig_canon = p.canon
+    p.canon = lambda n: orig_canon(n).replace("self.circuits.get(payload.circuit_id)", CIRC)
+    tree = p.block(f.body, lambda: ("done",))
+    if p.facts.get("decoded", [None])[0] != "payload":
+        raise TranslatorError(f"{COMM}:{f.lineno}: on_data does not decode `payload, _ = {unpack}`")
+    progs.append(("on_data_prog", f"community.py l.{f.lineno}: TunnelCommunity.on_data (after decoding the DataPayload)", tree))
+    meta["on_data_aliases"] = p.facts.get("aliases", {})
+    srcs_c.append(f)
+
+    txt = "".join(ast.get_source_segment(es_src, f) or "" for f in srcs) + "".join(ast.get_source_segment(cm_src, f) or "" for f in srcs_c)
+    head = ("/-\n  GENERATED by tools/gen_exitpolicy.py (part 2) from exit_socket.py and community.py — do not edit.\n"
+            f"  sha1 of the translated method sources: {hashlib.sha1(txt.encode()).hexdigest()[:16]}\n"
+            "  Also checked structurally (TranslatorError otherwise): enable() flushes the queue through self.sendto; the resolution\n"
+            "  callback re-enters self.sendto; tunnel_data = overlay.send_data(hop.address, circuit_id, (\"0.0.0.0\", 0), source, data).\n-/\n"
+            "import Ipv8.C06.IR\n\nnamespace Ipv8.C06.Gen\nopen Ipv8.C06\n\n")
+    body = "\n".join(f"/-- {doc} -/\ndef {name} : Prog :=\n{lean_prog(tree)}\n" for name, doc, tree in progs)
+    meta["programs"] = {name: tree for name, _, tree in progs}
+    return head + body + "\nend Ipv8.C06.Gen\n", meta
